@@ -136,3 +136,35 @@ def shift(ivs, c):
         if nhi >= 0:
             out.append((nlo, nhi))
     return _norm(out)
+
+
+def constraint_set(cond, allowed, const_of, strip):
+    """Generalised guard: the set of values of a quantity q admitted by a
+    dominating switch constraint (cond, allowed labels).  Understands
+      * boolean comparisons `q op const` (one allowed label),
+      * a switch on q itself (allowed = explicit integer labels),
+      * `match q.cmp(&const) { Less | Equal | Greater }` (Ordering labels).
+    Returns (q_expr, set) or None."""
+    c = strip(cond)
+    if c.k == "discr" and allowed and all(isinstance(a, str) and a in ("Less", "Equal", "Greater") for a in allowed):
+        inner = strip(c.a[0])
+        if inner.k == "call" and inner.a[0].name in ("cmp", "partial_cmp") and len(inner.a[1]) == 2:
+            a, b = inner.a[1]
+            ca, cb = const_of(a), const_of(b)
+            if cb is not None and ca is None:
+                q, k, flip = a, cb, False
+            elif ca is not None and cb is None:
+                q, k, flip = b, ca, True
+            else:
+                return None
+            out = []
+            for lab in allowed:
+                if flip:
+                    lab = {"Less": "Greater", "Greater": "Less", "Equal": "Equal"}[lab]
+                out += {"Less": [(0, k - 1)], "Equal": [(k, k)], "Greater": [(k + 1, INF)]}[lab]
+            return q, _norm(out)
+    if allowed and all(isinstance(a, int) for a in allowed) and c.k not in ("binop", "unop"):
+        return cond, _norm([(a, a) for a in allowed])
+    if len(allowed) == 1:
+        return edge_set(cond, list(allowed)[0], const_of)
+    return None
